@@ -24,6 +24,11 @@ Transcription of the position machinery of `as.c` / `asmerr.c` / `strutil.c`:
 * `Exp.*` = `pExpectErrors`/`InExpect`, `FindAndTakeExpectError`, `CodeEXPECT`, `CodeENDEXPECT`,
   `AsmErrPassExit`, the `WrXErrorPos` filter.
 
+`CurrLine` does not enter a position: the `*_GetPos` functions read `LineZ` / `ParZ` / `LineCnt` only, so the source line offsets
+the REPT/IRP/IRPC/WHILE tags store with their body lines (`TInputTag.LineNums`, `AddBodyLine`; modelled in `Model/LineInfo.lean`
+for C19) leave this machine as it is: inside a block body the file frame names the last line read from the file (the ENDM line,
+counted in physical lines, continuation lines of the body included) and the block frame the stored (joined) body line.
+
 Not modelled: EXITM/SHIFT, macro parameters, errors raised on opener/ENDM lines, `feof` handling of the
 last line, `-x` extension lines.  Core only.
 -/
